@@ -320,6 +320,30 @@ fn batch(mode: &'static str, tier: &str) -> i32 {
     if let Some((&first, _)) = agg.violations.iter().next() {
         agg.violations.retain(|k, _| *k == first);
     }
+    // built-in determinism proof on a sample: one more worker process (different memo state,
+    // different worker count) re-executes the first runs; fingerprints must be identical
+    if agg.violations.is_empty() {
+        let n = runs.min(if tier == "thorough" { 128 } else { 32 });
+        let out = Command::new(&exe).args(["worker", mode, &n.to_string(), "0", "1", "/nonexistent-stopfile"]).stdin(Stdio::null()).stderr(Stdio::null()).output();
+        match out {
+            Ok(o) => {
+                let mut fps = std::collections::BTreeMap::new();
+                for line in String::from_utf8_lossy(&o.stdout).lines() {
+                    if let Ok(rec) = serde_json::from_str::<Value>(line) {
+                        if let (Some(i), Some(f)) = (rec["idx"].as_u64(), rec["fp"].as_u64()) {
+                            fps.insert(i, f);
+                        }
+                    }
+                }
+                agg.low_fps.retain(|k, _| *k < n);
+                agg.recheck_determinism(|idx| fps.get(&idx).copied().unwrap_or(0));
+            }
+            Err(e) => {
+                println!("harness error: determinism re-execution could not start: {e}");
+                return 2;
+            }
+        }
+    }
     agg.probes.declare(oh_verif_rt::PROBE_SITES);
     agg.probes.declare(&["executions_with_contended_first_use", "executions_with_first_use_on_2plus_threads", "probe_yields_taken", "lazy_forces", "once_calls", "tables_first_used"]);
     agg.faults.declare(&["contended_first_use", "decoder_short_read", "decoder_interrupted_read"]);
